@@ -646,27 +646,178 @@ Proof.
 Qed.
 End Scan.
 
-(* ---------- a completed read means no line of the text offends ---------- *)
-Theorem oneline_never_a_table : forall n hdr plus m k file chunks dropped app lines,
-  (1 <= n) -> (plus = true -> 3 <= n) -> hdr <> 10%Z -> (1 <= k) -> whole n (norm_text file) ->
+(* ---------- the specification on a text made of whole records and a short tail ---------- *)
+Lemma norm_text_ends file : norm_text file = [] \/ ends_nl (norm_text file) = true.
+Proof.
+  unfold norm_text. destruct file as [|x file]; [left; reflexivity|right].
+  destruct (ends_nl (x :: file)) eqn:E; [exact E|apply ends_nl_snoc].
+Qed.
+Lemma app_tail_ends (body tail : list Z) :
+  (body ++ tail = [] \/ ends_nl (body ++ tail) = true) -> tail = [] \/ ends_nl tail = true.
+Proof.
+  intros H. destruct tail as [|x t]; [left; reflexivity|right].
+  destruct H as [H|H]; [destruct body; discriminate H|].
+  unfold ends_nl in *. rewrite last_app_nonempty in H by discriminate. exact H.
+Qed.
+
+(* the bytes of the lines are the bytes of the text without its line breaks *)
+Lemma forallb_concat_split P a : P 10%Z = true -> forallb P (concat (split_on 10 a)) = forallb P a.
+Proof.
+  intros HP. induction a as [|x a IH]; [reflexivity|].
+  cbn [split_on]. destruct (Z.eqb_spec x 10) as [->|Hne].
+  - cbn [concat List.app forallb]. rewrite HP, IH. reflexivity.
+  - pose proof (split_on_nonempty 10 a) as Hn. destruct (split_on 10 a) as [|h t]; [congruence|].
+    cbn [concat List.app forallb] in *. rewrite IH. reflexivity.
+Qed.
+Lemma forallb_concat_lines P t : P 10%Z = true -> (t = [] \/ ends_nl t = true) ->
+  forallb P (concat (lines t)) = forallb P t.
+Proof.
+  intros HP [->|He]; [reflexivity|].
+  pose proof (ends_nl_split t He) as Hs. set (a := removelast t) in *. rewrite Hs.
+  rewrite lines_terminated, forallb_app, (forallb_concat_split P a HP).
+  cbn [forallb]. rewrite HP. cbn [andb]. rewrite andb_true_r. reflexivity.
+Qed.
+Lemma ignorable_nl f : ignorable f 10%Z = true.
+Proof. reflexivity. Qed.
+
+(* an incomplete final record at line l: l is the first line after the last complete record, and the lines from
+   there on are not all white space *)
+Definition incomplete_at (n : nat) (hdr : Z) (plus : bool) (text : list Z) (l : nat) : Prop :=
+  l = length (lines text) / n * n
+  /\ leftover_ok (OneLine n hdr plus) (concat (skipn l (lines text))) = false.
+
+Section SpecSplit.
+Variables (n : nat) (hdr : Z) (plus : bool).
+Hypothesis Hn : 1 <= n.
+Let f := OneLine n hdr plus.
+
+Lemma fbl_app a : forall i b,
+  first_bad_line n hdr plus i (a ++ b) =
+  match first_bad_line n hdr plus i a with Some j => Some j | None => first_bad_line n hdr plus (i + length a) b end.
+Proof.
+  induction a as [|x a IH]; intros i b; cbn [List.app first_bad_line length].
+  - rewrite Nat.add_0_r. reflexivity.
+  - destruct (line_bad n hdr plus i x); [reflexivity|]. rewrite IH.
+    replace (S i + length a) with (i + S (length a)) by lia. reflexivity.
+Qed.
+
+Lemma div_mul_whole c r : r < n -> (n * c + r) / n * n = n * c.
+Proof. intros Hr. rewrite (Nat.mul_comm n c), Nat.div_add_l by lia. rewrite (Nat.div_small r n Hr). lia. Qed.
+
+(* the lines of whole records followed by a tail of fewer than n lines *)
+Lemma lines_split body tail :
+  (body = [] \/ ends_nl body = true) -> count_nl body mod n = 0 ->
+  (tail = [] \/ ends_nl tail = true) -> count_nl tail < n ->
+  length (lines (body ++ tail)) / n * n = count_nl body
+  /\ firstn (count_nl body) (lines (body ++ tail)) = lines body
+  /\ skipn (count_nl body) (lines (body ++ tail)) = lines tail.
+Proof.
+  intros Hb Hm Ht Hlt. rewrite (lines_app' body tail Hb).
+  assert (HlB : length (lines body) = count_nl body) by (apply lines_length; exact Hb).
+  assert (HlT : length (lines tail) = count_nl tail) by (apply lines_length; exact Ht).
+  split; [|split].
+  - rewrite app_length, HlB, HlT. apply Nat.mod_divides in Hm; [|lia]. destruct Hm as [c Hc].
+    rewrite Hc. apply div_mul_whole. exact Hlt.
+  - rewrite <- HlB. rewrite firstn_app, Nat.sub_diag, firstn_all. cbn [firstn]. apply app_nil_r.
+  - rewrite <- HlB. rewrite skipn_app, Nat.sub_diag, skipn_all. reflexivity.
+Qed.
+
+Lemma spec_split body tail :
+  (body = [] \/ ends_nl body = true) -> count_nl body mod n = 0 ->
+  (tail = [] \/ ends_nl tail = true) -> count_nl tail < n ->
+  spec_oneline f (body ++ tail) =
+  match first_bad_line n hdr plus 0 (lines body) with
+  | Some l => Some l
+  | None => if leftover_ok f tail then None else Some (count_nl body)
+  end.
+Proof.
+  intros Hb Hm Ht Hlt. destruct (lines_split body tail Hb Hm Ht Hlt) as (Hw & Hf & Hs).
+  unfold f. cbn [spec_oneline]. cbv zeta. rewrite Hw, Hf, Hs.
+  unfold leftover_ok. rewrite (forallb_concat_lines _ tail (ignorable_nl _) Ht). reflexivity.
+Qed.
+
+Lemma split_incomplete body tail :
+  (body = [] \/ ends_nl body = true) -> count_nl body mod n = 0 ->
+  (tail = [] \/ ends_nl tail = true) -> count_nl tail < n ->
+  leftover_ok f tail = false -> incomplete_at n hdr plus (body ++ tail) (count_nl body).
+Proof.
+  intros Hb Hm Ht Hlt Hl. destruct (lines_split body tail Hb Hm Ht Hlt) as (Hw & _ & Hs).
+  split; [symmetry; exact Hw|]. rewrite Hs.
+  unfold leftover_ok in *. rewrite (forallb_concat_lines _ tail (ignorable_nl _) Ht). exact Hl.
+Qed.
+
+(* a text of whole records: the specification is the scan of all its lines, and no record is incomplete *)
+Lemma whole_lines text : (text = [] \/ ends_nl text = true) -> whole n text ->
+  length (lines text) / n * n = length (lines text).
+Proof.
+  intros Ht Hw. rewrite (lines_length text Ht). unfold whole in Hw.
+  apply Nat.mod_divides in Hw; [|lia]. destruct Hw as [c Hc]. rewrite Hc.
+  rewrite (Nat.mul_comm n c), Nat.div_mul by lia. reflexivity.
+Qed.
+Lemma spec_whole text : (text = [] \/ ends_nl text = true) -> whole n text ->
+  spec_oneline f text = first_bad_line n hdr plus 0 (lines text).
+Proof.
+  intros Ht Hw. unfold f. cbn [spec_oneline]. cbv zeta. rewrite (whole_lines text Ht Hw).
+  rewrite firstn_all, skipn_all. cbn [concat leftover_ok forallb].
+  destruct (first_bad_line n hdr plus 0 (lines text)); reflexivity.
+Qed.
+Lemma whole_not_incomplete text l : (text = [] \/ ends_nl text = true) -> whole n text ->
+  ~ incomplete_at n hdr plus text l.
+Proof.
+  intros Ht Hw [Hl Hc]. rewrite (whole_lines text Ht Hw) in Hl. subst l.
+  rewrite skipn_all in Hc. discriminate Hc.
+Qed.
+
+(* a violation in a prefix of whole records is what the specification reports *)
+Lemma spec_prefix text A B l : lines text = A ++ B -> length A mod n = 0 ->
+  first_bad_line n hdr plus 0 A = Some l -> spec_oneline f text = Some l.
+Proof.
+  intros HAB Hm HA. unfold f. cbn [spec_oneline]. cbv zeta. rewrite HAB.
+  apply Nat.mod_divides in Hm; [|lia]. destruct Hm as [c Hc].
+  assert (Hle : length A <= length (A ++ B) / n * n).
+  { rewrite app_length, Hc.
+    assert (c <= (n * c + length B) / n) by (apply Nat.div_le_lower_bound; lia). nia. }
+  rewrite firstn_app. rewrite (firstn_all2 A Hle). rewrite fbl_app, HA. reflexivity.
+Qed.
+End SpecSplit.
+
+(* ---------- a completed read means no line of the text offends and no record is cut short ---------- *)
+Theorem oneline_never_a_table_strong : forall n hdr plus m k file chunks dropped app lines,
+  (1 <= n) -> (plus = true -> 3 <= n) -> hdr <> 10%Z -> (1 <= k) ->
   read_chunks true (OneLine n hdr plus) m k file = Done chunks dropped app lines ->
   spec_oneline (OneLine n hdr plus) (norm_text file) = None.
 Proof.
-  intros n hdr plus m k file chunks dropped app lns Hn Hp Hh Hk Hw Hrun.
+  intros n hdr plus m k file chunks dropped app lns Hn Hp Hh Hk Hrun.
   pose (G := fun c => whole n c /\ clean n hdr plus c).
   assert (HcutG : forall chunk size nl, cut (OneLine n hdr plus) chunk = CutOk size nl ->
             G (firstn size chunk) /\ ends_nl (firstn size chunk) = true).
   { intros chunk size nl H. destruct (ol_cutG n hdr plus Hn chunk size nl H) as [H1 H2].
     split; [split; [exact H1|]|exact H2].
     exact (cut_ok_clean n hdr plus Hn Hp chunk size nl Hh H). }
-  assert (HW : forall D b, Forall G D -> whole n (concat D ++ b) -> whole n b).
-  { intros D b HD Hwb. apply (ol_W n Hn D b); [|exact Hwb].
-    revert HD. apply (@Forall_impl _ G (whole n)). intros c Hc. exact (proj1 Hc). }
-  destruct (lines_chunks_exact (OneLine n hdr plus) G (whole n) eq_refl HcutG
-              (ol_full n hdr plus Hn) (ol_comp n hdr plus Hn) HW m k file chunks dropped app lns Hk Hw Hrun)
-    as (_ & Hc & HG & HE).
-  cbn [spec_oneline]. rewrite <- Hc. apply (proj2 (fbl_none n hdr plus Hn (lines (concat chunks)) 0)). intros j Hj.
-  exact (clean_concat n hdr plus Hn chunks HG HE j Hj).
+  assert (HT0 : (fun t => count_nl t < n) []) by (cbv beta; change (count_nl []) with 0; lia).
+  destruct (lines_chunks_tail (OneLine n hdr plus) G (fun t => count_nl t < n) eq_refl HcutG
+              (ol_cutT n hdr plus Hn) (ol_compT n hdr plus) HT0 m k file chunks dropped app lns Hk Hrun)
+    as (Hc & Hl & Ht & HG & HE).
+  assert (HWc : Forall (whole n) chunks).
+  { revert HG. apply Forall_impl. intros c Hc'. exact (proj1 Hc'). }
+  rewrite <- Hc. rewrite (spec_split n hdr plus Hn (concat chunks) dropped).
+  - rewrite (proj2 (fbl_none n hdr plus Hn (lines (concat chunks)) 0)).
+    + rewrite Hl. reflexivity.
+    + intros j Hj. exact (clean_concat n hdr plus Hn chunks HG HE j Hj).
+  - destruct (concat_ends chunks HE) as [->|H]; [left; reflexivity|right; exact H].
+  - apply whole_concat; assumption.
+  - apply (app_tail_ends (concat chunks)). rewrite Hc. apply norm_text_ends.
+  - exact Ht.
+Qed.
+
+(* the statement before the end-of-file check existed: for a text of whole records *)
+Corollary oneline_never_a_table : forall n hdr plus m k file chunks dropped app lines,
+  (1 <= n) -> (plus = true -> 3 <= n) -> hdr <> 10%Z -> (1 <= k) -> whole n (norm_text file) ->
+  read_chunks true (OneLine n hdr plus) m k file = Done chunks dropped app lines ->
+  spec_oneline (OneLine n hdr plus) (norm_text file) = None.
+Proof.
+  intros n hdr plus m k file chunks dropped app lns Hn Hp Hh Hk _ Hrun.
+  exact (oneline_never_a_table_strong n hdr plus m k file chunks dropped app lns Hn Hp Hh Hk Hrun).
 Qed.
 
 (* ---------- where a format error comes from ---------- *)
@@ -775,13 +926,20 @@ Proof.
   replace (0 <? n) with true by (symmetry; apply Nat.ltb_lt; lia). discriminate.
 Qed.
 
-(* a format error raised by one read_chunk call *)
+(* a buffer the reader counts as delivered: nothing, or the accepted prefix of some chunk *)
+Definition okbuf (b : list Z) : Prop :=
+  b = [] \/ exists c size nl, cut f c = CutOk size nl /\ b = firstn size c.
+
+(* a format error raised by one read_chunk call: a buffer was rejected, or (end of file, repaired code) what
+   follows the last complete record is not ignorable - an entry cut short, reported at the line after the buffer *)
 Lemma read_chunk_format m k file st D l : 1 <= k -> Inv m file st D ->
   read_chunk true f m k file st = RFormat l ->
-  exists c j tail, l = j + r_lines st /\ cut f c = CutFormat j /\ concat D ++ c ++ tail = norm_text file.
+  (exists c j tail, l = j + r_lines st /\ cut f c = CutFormat j /\ concat D ++ c ++ tail = norm_text file)
+  \/ (exists b tail, l = r_lines st + count_nl b /\ okbuf b /\ concat D ++ b ++ tail = norm_text file
+                     /\ leftover_ok f tail = false /\ count_nl tail < n).
 Proof.
   intros Hk HI Hrun. pose proof HI as [HI1 _].
-  unfold read_chunk in Hrun.
+  unfold read_chunk in Hrun. unfold m_incomplete_line, m_pending_incomplete_line in Hrun.
   set (temp0 := match r_prepend st with [] => [] | p => [p] end) in *.
   assert (Ht0 : concat temp0 = r_prepend st ++ []).
   { unfold temp0. destruct (r_prepend st); [reflexivity|]. cbn [concat]. reflexivity. }
@@ -796,42 +954,82 @@ Proof.
   destruct (accumulate true (length file + 2) f k file (r_lines st) (r_pos st) temp0 false []) as [temp pos' fin app|pending app|l'|];
     cbn [acc_post term_post] in *; try discriminate.
   - destruct HA as (Hle & Hle2 & Hcc & Hf1 & Hf2).
-    destruct (cut f (concat temp)) as [size nl| | |j] eqn:Ecut; try discriminate.
-    injection Hrun as <-.
-    assert (Hcn : concat temp <> []) by (intros E; rewrite E in Ecut; exact (cut_nil_not_format j Ecut)).
     assert (HsX : skipn pos' file = skipn (pos' - r_pos st) (skipn (r_pos st) file)).
     { rewrite skipn_skipn'. f_equal. lia. }
-    destruct fin.
-    + destruct (HT eq_refl) as [HS Happ]. cbv zeta in HS, Happ.
+    destruct (cut f (concat temp)) as [size nl| | |j] eqn:Ecut; try discriminate.
+    + (* the buffer was accepted: the error is the end-of-file check *)
+      destruct fin; cbn [andb] in Hrun; [|discriminate].
+      destruct (leftover_ok f (skipn size (concat temp))) eqn:Eleft; cbn [negb] in Hrun; [discriminate|].
+      injection Hrun as <-. right.
+      destruct (HT eq_refl) as [HS Happ]. cbv zeta in HS, Happ.
       assert (HSR : r_prepend st ++ firstn (pos' - r_pos st) (skipn (r_pos st) file) = R).
       { unfold R. f_equal. apply firstn_covers. rewrite <- HsX. apply Hf2. reflexivity. }
       rewrite HSR in *.
-      exists (concat temp), j, []. split; [reflexivity|]. split; [exact Ecut|].
-      rewrite (Hnt HS).
-      rewrite app_nil_r, Hcc, Happ. rewrite (app_assoc (r_prepend st)), HSR. reflexivity.
-    + rewrite (Hf1 eq_refl), app_nil_r in Hcc.
-      assert (HcR : concat temp ++ skipn pos' file = R).
-      { rewrite Hcc, HsX. unfold R. rewrite <- app_assoc. f_equal. apply firstn_skipn. }
-      assert (HRn : R <> []) by (rewrite <- HcR; destruct (concat temp); [congruence|discriminate]).
-      exists (concat temp), j, (skipn pos' file ++ terminator f R).
-      split; [reflexivity|]. split; [exact Ecut|].
-      rewrite (Hnt HRn).
-      rewrite (app_assoc (concat temp)), HcR. reflexivity.
-  - injection Hrun as <-.
+      assert (Hnorm : norm_text file = concat D ++ concat temp).
+      { rewrite (Hnt HS). rewrite Hcc, Happ. rewrite (app_assoc (r_prepend st)), HSR. reflexivity. }
+      destruct (cut_oneline_shape n hdr plus (concat temp) size nl Hn Ecut) as (Hc & Hnl & Hsz).
+      cbv zeta in Hc, Hnl.
+      assert (Hm : 1 <= nl <= count_nl (concat temp)).
+      { pose proof (Nat.mod_upper_bound (count_nl (concat temp)) n ltac:(lia)). lia. }
+      destruct (kth_newline (concat temp) nl Hm) as (_ & Hcnt & _). cbv zeta in Hcnt. rewrite <- Hsz in Hcnt.
+      exists (firstn size (concat temp)), (skipn size (concat temp)).
+      split; [rewrite Hcnt; reflexivity|].
+      split; [right; exists (concat temp), size, nl; split; [exact Ecut|reflexivity]|].
+      split; [rewrite Hnorm, (firstn_skipn size); reflexivity|].
+      split; [exact Eleft|exact (ol_cutT n hdr plus Hn (concat temp) size nl Ecut)].
+    + (* the buffer was rejected *)
+      injection Hrun as <-. left.
+      assert (Hcn : concat temp <> []) by (intros E; rewrite E in Ecut; exact (cut_nil_not_format j Ecut)).
+      destruct fin.
+      * destruct (HT eq_refl) as [HS Happ]. cbv zeta in HS, Happ.
+        assert (HSR : r_prepend st ++ firstn (pos' - r_pos st) (skipn (r_pos st) file) = R).
+        { unfold R. f_equal. apply firstn_covers. rewrite <- HsX. apply Hf2. reflexivity. }
+        rewrite HSR in *.
+        exists (concat temp), j, []. split; [reflexivity|]. split; [exact Ecut|].
+        rewrite (Hnt HS).
+        rewrite app_nil_r, Hcc, Happ. rewrite (app_assoc (r_prepend st)), HSR. reflexivity.
+      * rewrite (Hf1 eq_refl), app_nil_r in Hcc.
+        assert (HcR : concat temp ++ skipn pos' file = R).
+        { rewrite Hcc, HsX. unfold R. rewrite <- app_assoc. f_equal. apply firstn_skipn. }
+        assert (HRn : R <> []) by (rewrite <- HcR; destruct (concat temp); [congruence|discriminate]).
+        exists (concat temp), j, (skipn pos' file ++ terminator f R).
+        split; [reflexivity|]. split; [exact Ecut|].
+        rewrite (Hnt HRn).
+        rewrite (app_assoc (concat temp)), HcR. reflexivity.
+  - (* nothing more to read: the pending text is not ignorable *)
+    cbn [andb] in Hrun.
+    destruct (leftover_ok f pending) eqn:Eleft; cbn [negb] in Hrun; [discriminate|].
+    injection Hrun as <-. right.
+    destruct HT as [[Hp _]|(S & HS & Ha & Hp & Hcn)]; [rewrite Hp in Eleft; discriminate Eleft|].
+    destruct HA as (p' & Hle & Hpe & Hsk).
+    assert (HSR : r_prepend st ++ firstn (p' - r_pos st) (skipn (r_pos st) file) = R).
+    { unfold R. f_equal. apply firstn_covers. rewrite skipn_skipn'.
+      replace (p' - r_pos st + r_pos st) with p' by lia. exact Hsk. }
+    rewrite app_assoc, HSR in Hpe.
+    assert (HSeq : S = R) by (rewrite Hp in Hpe; apply app_inv_tail in Hpe; exact Hpe).
+    subst S.
+    exists [], pending. change (count_nl []) with 0.
+    split; [lia|]. split; [left; reflexivity|].
+    split; [cbn [List.app]; rewrite (Hnt HS), Hp, Ha; reflexivity|].
+    split; [exact Eleft|exact (ol_compT n hdr plus pending Hcn)].
+  - injection Hrun as <-. left.
     destruct (HF l' Ht0 Hne0 eq_refl (or_introl eq_refl) eq_refl) as (c & j & tail & Hl & Hcut & Hct & HRn).
     exists c, j, tail. split; [exact Hl|]. split; [exact Hcut|].
     rewrite (Hnt HRn). rewrite Hct. reflexivity.
 Qed.
 
-(* a delivered buffer: whole records, ends in a line break, and the running line count grows by its lines *)
-Lemma read_chunk_count m k file st b d a st' :
+(* a delivered buffer: the accepted prefix of a chunk - whole records, ends in a line break - and the running line
+   count grows by its lines *)
+Lemma read_chunk_cutok m k file st b d a st' :
   read_chunk true f m k file st = RChunk b d a st' ->
-  whole n b /\ ends_nl b = true /\ r_lines st' = r_lines st + count_nl b.
+  (exists c size nl, cut f c = CutOk size nl /\ b = firstn size c)
+  /\ whole n b /\ ends_nl b = true /\ r_lines st' = r_lines st + count_nl b.
 Proof.
   intros Hrun. unfold read_chunk in Hrun.
   destruct (accumulate true (length file + 2) f k file (r_lines st) (r_pos st) _ false []) as [temp pos' fin app|pending app|l'|];
-    try discriminate.
+    try discriminate; [|destruct (true && negb (leftover_ok f pending)); discriminate].
   destruct (cut f (concat temp)) as [size nl| | |j] eqn:Ecut; try discriminate.
+  destruct (true && fin && negb (leftover_ok f (skipn size (concat temp)))); [discriminate|].
   destruct (ol_cutG n hdr plus Hn (concat temp) size nl Ecut) as [Hw He].
   destruct (cut_oneline_shape n hdr plus (concat temp) size nl Hn Ecut) as (Hc & Hnl & Hsz).
   cbv zeta in Hc, Hnl.
@@ -841,8 +1039,63 @@ Proof.
   assert (Hb : b = firstn size (concat temp)) by (injection Hrun as <- _ _ _; reflexivity).
   assert (Hl : r_lines st' = r_lines st + nl).
   { injection Hrun as _ _ _ <-. destruct fin; [reflexivity|]. destruct m; reflexivity. }
+  split; [exists (concat temp), size, nl; split; [exact Ecut|exact Hb]|].
   rewrite Hb, Hcnt. repeat split; assumption.
 Qed.
+Lemma read_chunk_count m k file st b d a st' :
+  read_chunk true f m k file st = RChunk b d a st' ->
+  whole n b /\ ends_nl b = true /\ r_lines st' = r_lines st + count_nl b.
+Proof. intros H. exact (proj2 (read_chunk_cutok m k file st b d a st' H)). Qed.
+
+(* the run up to a format error, with an extra property P of accepted buffers carried along *)
+Section Loop.
+Variable P : list Z -> Prop.
+Hypothesis HP : forall c size nl, cut f c = CutOk size nl -> P (firstn size c).
+Let gd (c : list Z) : Prop := whole n c /\ P c.
+
+Lemma loop_format_gen m k file : 1 <= k ->
+  forall fuel st acc l chunks,
+    r_finished st = false -> Inv m file st (rev acc) ->
+    Forall gd (rev acc) -> Forall (fun c => ends_nl c = true) (rev acc) ->
+    r_lines st = count_nl (concat (rev acc)) ->
+    read_chunks_loop true fuel f m k file st acc = FormatError l chunks ->
+    (exists (D : list (list Z)) c j tail,
+      l = count_nl (concat D) + j /\ Forall gd D /\ Forall (fun c => ends_nl c = true) D
+      /\ cut f c = CutFormat j /\ concat D ++ c ++ tail = norm_text file)
+    \/ (exists (D : list (list Z)) tail,
+      l = count_nl (concat D) /\ Forall gd D /\ Forall (fun c => ends_nl c = true) D
+      /\ concat D ++ tail = norm_text file /\ leftover_ok f tail = false /\ count_nl tail < n).
+Proof.
+  intros Hk. induction fuel as [|fuel IH]; intros st acc l chunks Hnf HI HWa HE Hln Hrun; [discriminate|].
+  cbn [read_chunks_loop] in Hrun. rewrite Hnf in Hrun.
+  pose proof (read_chunk_spec true f m k file st (rev acc) Hk HI) as HS.
+  pose proof (read_chunk_format m k file st (rev acc)) as HFm.
+  pose proof (read_chunk_cutok m k file st) as HC.
+  destruct (read_chunk true f m k file st) as [b d a st'|d a st'|l'| |]; try discriminate.
+  - destruct (HC b d a st' eq_refl) as ((c & size & nl & Hcut & Hbc) & Hwb & Heb & Hlb).
+    destruct (r_finished st') eqn:Ef; [discriminate|].
+    destruct HS as [HS1 _]. destruct (HS1 eq_refl) as (HI' & _ & _).
+    apply (IH st' (b :: acc) l chunks Ef); cbn [rev].
+    + exact HI'.
+    + apply Forall_app. split; [exact HWa|constructor; [split; [exact Hwb|rewrite Hbc; exact (HP c size nl Hcut)]|constructor]].
+    + apply Forall_app. split; [exact HE|constructor; [exact Heb|constructor]].
+    + rewrite concat_snoc, count_nl_app, <- Hln. exact Hlb.
+    + exact Hrun.
+  - injection Hrun as <- _.
+    destruct (HFm l' Hk HI eq_refl) as [(c & j & tail & Hl & Hcut & Htxt)|(b & tail & Hl & Hok & Htxt & Hleft & Hcnt)].
+    + left. exists (rev acc), c, j, tail. rewrite <- Hln. repeat split; try assumption. lia.
+    + right. destruct Hok as [->|(c & size & nl & Hcut & ->)].
+      * exists (rev acc), tail. change (count_nl []) with 0 in Hl. cbn [List.app] in Htxt.
+        rewrite <- Hln. repeat split; try assumption. lia.
+      * destruct (ol_cutG n hdr plus Hn c size nl Hcut) as [Hw He].
+        exists (rev acc ++ [firstn size c]), tail.
+        rewrite concat_snoc, count_nl_app, <- Hln.
+        split; [exact Hl|].
+        split; [apply Forall_app; split; [exact HWa|constructor; [split; [exact Hw|exact (HP c size nl Hcut)]|constructor]]|].
+        split; [apply Forall_app; split; [exact HE|constructor; [exact He|constructor]]|].
+        split; [rewrite <- app_assoc; exact Htxt|]. split; assumption.
+Qed.
+End Loop.
 
 Lemma loop_format m k file : 1 <= k ->
   forall fuel st acc l chunks,
@@ -850,28 +1103,22 @@ Lemma loop_format m k file : 1 <= k ->
     Forall (whole n) (rev acc) -> Forall (fun c => ends_nl c = true) (rev acc) ->
     r_lines st = count_nl (concat (rev acc)) ->
     read_chunks_loop true fuel f m k file st acc = FormatError l chunks ->
-    exists (D : list (list Z)) c j tail,
+    (exists (D : list (list Z)) c j tail,
       l = count_nl (concat D) + j /\ Forall (whole n) D /\ Forall (fun c => ends_nl c = true) D
-      /\ cut f c = CutFormat j /\ concat D ++ c ++ tail = norm_text file.
+      /\ cut f c = CutFormat j /\ concat D ++ c ++ tail = norm_text file)
+    \/ (exists (D : list (list Z)) tail,
+      l = count_nl (concat D) /\ Forall (whole n) D /\ Forall (fun c => ends_nl c = true) D
+      /\ concat D ++ tail = norm_text file /\ leftover_ok f tail = false /\ count_nl tail < n).
 Proof.
-  intros Hk. induction fuel as [|fuel IH]; intros st acc l chunks Hnf HI HWa HE Hln Hrun; [discriminate|].
-  cbn [read_chunks_loop] in Hrun. rewrite Hnf in Hrun.
-  pose proof (read_chunk_spec true f m k file st (rev acc) Hk HI) as HS.
-  pose proof (read_chunk_format m k file st (rev acc)) as HFm.
-  pose proof (read_chunk_count m k file st) as HC.
-  destruct (read_chunk true f m k file st) as [b d a st'|d a st'|l'| |]; try discriminate.
-  - destruct (HC b d a st' eq_refl) as (Hwb & Heb & Hlb).
-    destruct (r_finished st') eqn:Ef; [discriminate|].
-    destruct HS as [HS1 _]. destruct (HS1 eq_refl) as (HI' & _ & _).
-    apply (IH st' (b :: acc) l chunks Ef); cbn [rev].
-    + exact HI'.
-    + apply Forall_app. split; [exact HWa|constructor; [exact Hwb|constructor]].
-    + apply Forall_app. split; [exact HE|constructor; [exact Heb|constructor]].
-    + rewrite concat_snoc, count_nl_app, <- Hln. exact Hlb.
-    + exact Hrun.
-  - injection Hrun as <- _.
-    destruct (HFm l' Hk HI eq_refl) as (c & j & tail & Hl & Hcut & Htxt).
-    exists (rev acc), c, j, tail. rewrite <- Hln. repeat split; try assumption. lia.
+  intros Hk fuel st acc l chunks Hnf HI HWa HE Hln Hrun.
+  assert (Himp : forall D, Forall (fun c => whole n c /\ True) D -> Forall (whole n) D).
+  { intros D. apply Forall_impl. intros c Hc. exact (proj1 Hc). }
+  assert (HWa' : Forall (fun c => whole n c /\ True) (rev acc)).
+  { revert HWa. apply Forall_impl. intros c Hc. split; [exact Hc|exact I]. }
+  destruct (loop_format_gen (fun _ => True) (fun _ _ _ _ => I) m k file Hk fuel st acc l chunks Hnf HI HWa' HE Hln Hrun)
+    as [(D & c & j & tail & H1 & H2 & H3)|(D & tail & H1 & H2 & H3)].
+  - left. exists D, c, j, tail. split; [exact H1|]. split; [exact (Himp D H2)|exact H3].
+  - right. exists D, tail. split; [exact H1|]. split; [exact (Himp D H2)|exact H3].
 Qed.
 End Reader.
 
@@ -881,35 +1128,55 @@ End Reader.
 Definition line_is_bad (n : nat) (hdr : Z) (plus : bool) (text : list Z) (i : nat) : Prop :=
   i < length (lines text) /\ line_bad n hdr plus i (nth i (lines text) []) = true.
 
-(* every chunk size, both reader modes: the line the reader reports is a line of the text that offends *)
+(* every chunk size, both reader modes: the line the reader reports is a line of the text that offends, or the
+   first line of a final record that was cut short *)
 Theorem oneline_reported_line_offends : forall n hdr plus m k file l chunks,
   1 <= n -> (plus = true -> 3 <= n) -> hdr <> 0%Z -> 1 <= k ->
   read_chunks true (OneLine n hdr plus) m k file = FormatError l chunks ->
-  line_is_bad n hdr plus (norm_text file) l.
+  line_is_bad n hdr plus (norm_text file) l \/ incomplete_at n hdr plus (norm_text file) l.
 Proof.
   intros n hdr plus m k file l chunks Hn Hp Hh Hk Hrun. unfold read_chunks in Hrun.
   destruct (loop_format n hdr plus Hn m k file Hk (length file + 2) rinit [] l chunks eq_refl)
-    as (D & c & j & tail & Hl & HWD & HED & Hcut & Htxt);
-    [split; reflexivity|constructor|constructor|reflexivity|exact Hrun|].
-  destruct (cut_format_bad n hdr plus Hn Hp c j Hh Hcut) as (size & He & Hj & Hbad).
-  set (data := firstn size c) in *.
-  assert (Htxt' : norm_text file = concat D ++ data ++ (skipn size c ++ tail)).
-  { rewrite <- Htxt. rewrite (app_assoc data). unfold data. rewrite firstn_skipn. reflexivity. }
-  assert (HD : concat D = [] \/ ends_nl (concat D) = true).
-  { destruct (concat_ends D HED) as [->|H]; [left; reflexivity|right; exact H]. }
-  assert (Hlines : lines (norm_text file) = lines (concat D) ++ lines data ++ lines (skipn size c ++ tail)).
-  { rewrite Htxt'. rewrite lines_app' by exact HD. rewrite lines_app by exact He. reflexivity. }
-  assert (HlD : length (lines (concat D)) = count_nl (concat D)) by (apply lines_length; exact HD).
-  assert (Hld : length (lines data) = count_nl data) by (apply lines_length; right; exact He).
-  unfold line_is_bad. rewrite Hlines. subst l. split.
-  - rewrite !app_length. lia.
-  - rewrite app_nth2 by lia. rewrite HlD.
-    replace (count_nl (concat D) + j - count_nl (concat D)) with j by lia.
-    rewrite app_nth1 by lia.
-    rewrite (line_bad_shift n hdr plus Hn) by (apply whole_concat; assumption). exact Hbad.
+    as [(D & c & j & tail & Hl & HWD & HED & Hcut & Htxt)|(D & tail & Hl & HWD & HED & Htxt & Hleft & Hcnt)];
+    [split; reflexivity|constructor|constructor|reflexivity|exact Hrun| |].
+  - left.
+    destruct (cut_format_bad n hdr plus Hn Hp c j Hh Hcut) as (size & He & Hj & Hbad).
+    set (data := firstn size c) in *.
+    assert (Htxt' : norm_text file = concat D ++ data ++ (skipn size c ++ tail)).
+    { rewrite <- Htxt. rewrite (app_assoc data). unfold data. rewrite firstn_skipn. reflexivity. }
+    assert (HD : concat D = [] \/ ends_nl (concat D) = true).
+    { destruct (concat_ends D HED) as [->|H]; [left; reflexivity|right; exact H]. }
+    assert (Hlines : lines (norm_text file) = lines (concat D) ++ lines data ++ lines (skipn size c ++ tail)).
+    { rewrite Htxt'. rewrite lines_app' by exact HD. rewrite lines_app by exact He. reflexivity. }
+    assert (HlD : length (lines (concat D)) = count_nl (concat D)) by (apply lines_length; exact HD).
+    assert (Hld : length (lines data) = count_nl data) by (apply lines_length; right; exact He).
+    unfold line_is_bad. rewrite Hlines. subst l. split.
+    + rewrite !app_length. lia.
+    + rewrite app_nth2 by lia. rewrite HlD.
+      replace (count_nl (concat D) + j - count_nl (concat D)) with j by lia.
+      rewrite app_nth1 by lia.
+      rewrite (line_bad_shift n hdr plus Hn) by (apply whole_concat; assumption). exact Hbad.
+  - right. subst l. rewrite <- Htxt.
+    apply (split_incomplete n hdr plus Hn (concat D) tail).
+    + destruct (concat_ends D HED) as [->|H]; [left; reflexivity|right; exact H].
+    + apply whole_concat; assumption.
+    + apply (app_tail_ends (concat D)). rewrite Htxt. apply norm_text_ends.
+    + exact Hcnt.
+    + exact Hleft.
 Qed.
 
-(* with a single offending line in the text, the reported line is the specified one *)
+(* for a text of whole records (the statement before the end-of-file check existed) the reported line offends *)
+Corollary oneline_reported_line_offends_whole : forall n hdr plus m k file l chunks,
+  1 <= n -> (plus = true -> 3 <= n) -> hdr <> 0%Z -> 1 <= k -> whole n (norm_text file) ->
+  read_chunks true (OneLine n hdr plus) m k file = FormatError l chunks ->
+  line_is_bad n hdr plus (norm_text file) l.
+Proof.
+  intros n hdr plus m k file l chunks Hn Hp Hh Hk Hw Hrun.
+  destruct (oneline_reported_line_offends n hdr plus m k file l chunks Hn Hp Hh Hk Hrun) as [H|H]; [exact H|].
+  exfalso. exact (whole_not_incomplete n hdr plus Hn (norm_text file) l (norm_text_ends file) Hw H).
+Qed.
+
+(* with a single offending line in a text of whole records, the reported line is the specified one *)
 Theorem oneline_line_exact : forall n hdr plus m k file l chunks,
   1 <= n -> (plus = true -> 3 <= n) -> hdr <> 0%Z -> 1 <= k ->
   whole n (norm_text file) ->
@@ -917,9 +1184,9 @@ Theorem oneline_line_exact : forall n hdr plus m k file l chunks,
   read_chunks true (OneLine n hdr plus) m k file = FormatError l chunks ->
   spec_oneline (OneLine n hdr plus) (norm_text file) = Some l.
 Proof.
-  intros n hdr plus m k file l chunks Hn Hp Hh Hk _ Huniq Hrun.
-  pose proof (oneline_reported_line_offends n hdr plus m k file l chunks Hn Hp Hh Hk Hrun) as Hbad.
-  cbn [spec_oneline].
+  intros n hdr plus m k file l chunks Hn Hp Hh Hk Hw Huniq Hrun.
+  pose proof (oneline_reported_line_offends_whole n hdr plus m k file l chunks Hn Hp Hh Hk Hw Hrun) as Hbad.
+  rewrite (spec_whole n hdr plus Hn (norm_text file) (norm_text_ends file) Hw).
   destruct (first_bad_line n hdr plus 0 (lines (norm_text file))) as [l'|] eqn:E.
   - destruct (fbl_some n hdr plus Hn _ 0 l' E) as (_ & H1 & H2). rewrite Nat.sub_0_r in H1, H2.
     f_equal. apply Huniq; [split; assumption|exact Hbad].
@@ -927,28 +1194,15 @@ Proof.
     pose proof (proj1 (fbl_none n hdr plus Hn _ 0) E l Hl1) as H. cbn [Nat.add] in H. congruence.
 Qed.
 
-(* in particular the reported line is the same for every chunk size and reader mode *)
-Corollary oneline_line_chunk_independent : forall n hdr plus m1 k1 m2 k2 file l1 chunks1 l2 chunks2,
-  1 <= n -> (plus = true -> 3 <= n) -> hdr <> 0%Z -> 1 <= k1 -> 1 <= k2 ->
-  (forall i j, line_is_bad n hdr plus (norm_text file) i -> line_is_bad n hdr plus (norm_text file) j -> i = j) ->
-  read_chunks true (OneLine n hdr plus) m1 k1 file = FormatError l1 chunks1 ->
-  read_chunks true (OneLine n hdr plus) m2 k2 file = FormatError l2 chunks2 ->
-  l1 = l2.
-Proof.
-  intros n hdr plus m1 k1 m2 k2 file l1 c1 l2 c2 Hn Hp Hh Hk1 Hk2 Huniq H1 H2.
-  apply Huniq; [exact (oneline_reported_line_offends n hdr plus m1 k1 file l1 c1 Hn Hp Hh Hk1 H1)
-               |exact (oneline_reported_line_offends n hdr plus m2 k2 file l2 c2 Hn Hp Hh Hk2 H2)].
-Qed.
-
 (* the same two facts, phrased for the outcome type of Model/C15.v *)
 Corollary model_oneline_no_error : forall n hdr plus m k file,
-  1 <= n -> (plus = true -> 3 <= n) -> hdr <> 10%Z -> 1 <= k -> whole n (norm_text file) ->
+  1 <= n -> (plus = true -> 3 <= n) -> hdr <> 10%Z -> 1 <= k ->
   model_oneline (OneLine n hdr plus) m k file = NoError ->
   spec_oneline (OneLine n hdr plus) (norm_text file) = None.
 Proof.
-  intros n hdr plus m k file Hn Hp Hh Hk Hw H. unfold model_oneline in H.
+  intros n hdr plus m k file Hn Hp Hh Hk H. unfold model_oneline in H.
   destruct (read_chunks true (OneLine n hdr plus) m k file) as [chunks d a lns| | |] eqn:E; try discriminate.
-  exact (oneline_never_a_table n hdr plus m k file chunks d a lns Hn Hp Hh Hk Hw E).
+  exact (oneline_never_a_table_strong n hdr plus m k file chunks d a lns Hn Hp Hh Hk E).
 Qed.
 Corollary model_oneline_format_at : forall n hdr plus m k file l,
   1 <= n -> (plus = true -> 3 <= n) -> hdr <> 0%Z -> 1 <= k -> whole n (norm_text file) ->
